@@ -61,6 +61,8 @@ CFG = {
     "formats": gen.formats(6),
     "extra": _extra(),
     "sf_unique": True,
+    "sf_overlap": True,
+    "sf_root": True,
 }
 
 
@@ -86,6 +88,17 @@ def _with_rename(draw):
             if dst not in m.files and dst not in m.dirs:
                 scn["steps"].append({"op": "mv", "src": src, "dst": dst})
                 scn["steps"].append({"op": "create", "root": "", "formats": draw(gen.formats(2)), "flags": ["-dr"], "extra": []})
+    if draw(st.integers(0, 2)) == 0:
+        # a recorded file is altered and then named twice by one -sf run (its folder and the file itself): exit 11
+        m = hist.GenModel(scn["tree"])
+        for s in scn["steps"]:
+            m.apply(s)
+        if m.files and m.roots:
+            f = draw(st.sampled_from(sorted(m.files)))
+            parent = f.rsplit("/", 1)[0] if "/" in f else ""
+            scn["steps"].append({"op": "overwrite", "path": f, "spec": "altered before an overlapping -sf run"})
+            sel = draw(st.sampled_from([[parent, f], [f, parent], [f, f]]))
+            scn["steps"].append({"op": "create_sf", "root": "", "sf": sel, "formats": draw(gen.formats(2)), "flags": [], "extra": []})
     return scn
 
 
